@@ -2,7 +2,7 @@
 model phase : MinVersion / MinSizeIdx / layer rule / dimension obligations are total and monotone at every boundary (MC_QRFormat, MC_DM, MC_Aztec, MC_PDF417)
 trace valid.: size-only events (QR, DataMatrix: result dimension vs the specification's minimal size), full reads for Aztec (every smaller explicit size must be
               refused: pairs of events joined through the state variable `auto`) and PDF417 (pad codewords < columns, 2..30 rows/columns)"""
-import vlib, onedim, gen
+import vlib, onedim, gen, encconf
 import C01, C02, C03
 
 TAGS = ("version-not-minimal", "size-not-minimal", "auto-not-minimal", "padding-row", "dimension-limits")
@@ -75,6 +75,11 @@ def run(tier):
                    dict(module="MC_PDFDims.tla", cfg="MC_PDFDims.cfg", workers=4)])
     drive = vlib.build_harness(chk.work)
     jobs = c13_jobs(chk.rng, quick)
+    # shape-chooser conformance (tools/encconf.py): calcDimensions for every codeword count x level against PDFDims; shapes that break the
+    # rules of the property, and a sample of shapes that merely differ from the model's, are produced through the public API and measured
+    wrong, drift = encconf.dims_conformance(chk)
+    for (m, lv) in wrong + drift:
+        jobs.append(gen.enc("pdf", [65] * (2 * m), (lv,), proj="full"))
     # Aztec pairs must stay in one shard and in order: route by hand
     evs = vlib.run_drive(drive, jobs, chk.work)
     fam = {}
